@@ -73,10 +73,14 @@ TOLERANCES = {
              'minimum >= 1.5, unless e_0 <= 1e4*eps*max(S,T) (difference quotient '
              'exact: affine / quadratic maps)',
     'linear': '|D(a d1 + c d2) - a D(d1) - c D(d2)|_max <= 256*eps*(|a| '
-              'max(|D d1|, S) + |c| max(|D d2|, S)), S the scale of the '
-              'ladder (D(d) may be a cancelling sum of terms of that size)',
-    'self-derivative': '|D(d) - op(d)|_max <= 64*eps*max(|op(d)|, |op(x)|) '
-                       'for operators flagged linear',
+              'M1 + |c| M2), M_i = max(|D d_i|, S, TD_i); TD_i = largest '
+              'directional derivative of any intermediate node along d_i '
+              '(central difference of the reference evaluation): D(d) may be '
+              'a cancelling combination of terms of that size, each with '
+              'relative rounding error eps',
+    'self-derivative': '|D(d) - op(d)|_max <= 64*eps*max(|op(d)|, |op(x)|, '
+                       'T(d)) for operators flagged linear (T(d): largest '
+                       'intermediate value of the evaluation at d)',
     'affine-matrix': 'matrix of D equals matrix of op (flat.opmatrix) up to '
                      '256*eps*max|M|, real dimension <= 24',
     'margin': 'base points (and every intermediate value inside a tree) stay '
@@ -665,6 +669,33 @@ def term_magnitude(env, b, x):
     return tr.tmax
 
 
+def deriv_term_magnitude(env, b, x, d, eps):
+    """Largest magnitude among the directional derivatives of *all*
+    intermediate nodes of ``b`` at ``x`` along ``d`` (central difference of
+    the reference evaluation, mid-ladder step): D(d) may be a cancelling
+    combination (A'(x)d - A'(x)d) of terms of that size, each carrying a
+    relative rounding error eps."""
+    h = _ladder(eps)[2]
+    try:
+        tp, tm = Tracer(env), Tracer(env)
+        tp.ev(b, ex.vadd(x, ex.vscale(h, d)))
+        tm.ev(b, ex.vsub(x, ex.vscale(h, d)))
+    except Exception:  # noqa
+        return 0.0
+    mag = ex.vmaxabs(d)
+    for key, op_ in tp.outputs.items():
+        om = tm.outputs.get(key)
+        if om is None:
+            continue
+        try:
+            diff = ex.vsub(op_, om)
+        except Exception:  # noqa
+            continue
+        if ex.vfinite(diff):
+            mag = max(mag, ex.vmaxabs(diff) / (2 * h))
+    return mag
+
+
 def judge(errs, hs, S, eps, T=0.0):
     """None if the ladder accepts D(d), else a text."""
     k = int(np.argmin(errs))
@@ -703,6 +734,7 @@ class Tracer(ex.Interp):
         super(Tracer, self).__init__(*args, **kwargs)
         self.inputs = {}
         self.tmax = 0.0     # largest magnitude of any intermediate value
+        self.outputs = {}
 
     def ev(self, b, x):
         self.inputs.setdefault(id(b), x)
@@ -710,6 +742,7 @@ class Tracer(ex.Interp):
         r = super(Tracer, self).ev(b, x)
         if ex.vfinite(r):
             self.tmax = max(self.tmax, ex.vmaxabs(r))
+        self.outputs.setdefault(id(b), r)
         return r
 
 
@@ -990,6 +1023,7 @@ def _run_case(desc):
             od = _eval(env, root, d)
             err = ex.vmaxabs(ex.vsub(Dd, od))
             if not err <= 64 * eps * max(ex.vmaxabs(od), ex.vmaxabs(fx),
+                                         term_magnitude(env, root, d),
                                          1e-300) + 1e-300:
                 culprit = _linear_culprit(env, root)
                 raise Violation('C06|self-derivative|{}|{}'.format(
@@ -1027,8 +1061,10 @@ def _run_case(desc):
         expect = ex.vadd(ex.vscale(a, y[0]), ex.vscale(c, y[1]))
         # (scale: the ladder's S as well -- D(d) may be a cancelling sum of
         # terms of that size)
-        tol = 256 * eps * (abs(a) * max(ex.vmaxabs(y[0]), Smax) +
-                           abs(c) * max(ex.vmaxabs(y[1]), Smax)) + 1e-300
+        td = [deriv_term_magnitude(env, root, x, v, eps) for v in (d1, d2)]
+        tol = 256 * eps * (abs(a) * max(ex.vmaxabs(y[0]), Smax, td[0]) +
+                           abs(c) * max(ex.vmaxabs(y[1]), Smax, td[1])) + \
+            1e-300
         err = ex.vmaxabs(ex.vsub(y[2], expect))
         if not err <= tol:
             raise Violation('C06|deriv-nonlinear|{}|{}'.format(site, reg),
